@@ -4,7 +4,7 @@ from .common import generic_run, FinalDbMonitor, launched_instances
 PID = 'C31'
 ENGINE = 'E1'
 LEVEL = 'exploration'
-RULE = ('One case = generated workflow in which 1-2 tasks are declared sequential (on one or more recurrences, with parents or without), runahead limits, retries and failures + seeded schedule. From the launch/finish history: jobs of different instances of a sequential task never overlap, and each instance is launched only after the previous valid instance succeeded. Distinct = distinct (program, schedule digest); non-trivial = a sequential task ran at 2 or more cycle points.')
+RULE = ('One case = generated workflow in which 1-2 tasks are declared sequential (on one or more recurrences, with parents or without), runahead limits, retries and failures + seeded schedule. From the launch/finish history: jobs of different instances of a sequential task never overlap, and each instance is launched only after the previous valid instance succeeded. A share of the cases reloads the unchanged definition once in mid-run. Distinct = distinct (program, schedule digest); non-trivial = a sequential task ran at 2 or more cycle points.')
 ASSUMPTIONS = [
     'jobs, polls, submissions, message transport and the clock are simulated',
     'reference model / invariants cover the generated workflow sub-language',
@@ -75,7 +75,10 @@ def end_check(res, mode):
 
 
 def run(params):
+    from .common import reload_monitors
     return generic_run(PID, params, knobs=KNOBS, policy='any',
                        plan_kw={'p_fail': 0.3}, prog_hook=prog_hook,
-                       monitors=[SeqLaunch()], end_check=end_check,
+                       monitors=[SeqLaunch()] + reload_monitors(
+                           params['seed'], 'c31', 4),
+                       end_check=end_check,
                        probe_key='sequential_multi_point')
